@@ -1382,8 +1382,11 @@ impl TransportManager {
                                             .is_some_and(|context| context.state.on_dial_failure(connection_id));
 
                                         if dial_concluded {
-                                            // the endpoint carries the socket address only
-                                            let address = address.with(Protocol::P2p(peer.into()));
+                                            // a TCP endpoint carries the socket address only
+                                            let address = match address.iter().last() {
+                                                Some(Protocol::P2p(_)) => address,
+                                                _ => address.with(Protocol::P2p(peer.into())),
+                                            };
                                             self.report_dial_failure_to_protocols(peer, vec![address.clone()]).await;
 
                                             return Some(TransportEvent::DialFailure {
